@@ -14,7 +14,7 @@ variable {α : Type} [Arith α]
 def PFAt {β : Type} (m : A α β) (s : Col α) : Prop := (m s).2.panic = s.panic
 
 /-- `m` never changes the panic flag -/
-structure PF {β : Type} (m : A α β) : Prop where
+structure PFp {β : Type} (m : A α β) : Prop where
   at_ : ∀ s, PFAt m s
 
 namespace PFAt
@@ -72,11 +72,11 @@ theorem forIn {δ : Type} (l : List δ) (init : γ) (f : δ → γ → A α (For
 
 end PFAt
 
-theorem PF.pfAt {β : Type} {m : A α β} (h : PF m) (s : Col α) : PFAt m s := h.at_ s
+theorem PFp.pfAt {β : Type} {m : A α β} (h : PFp m) (s : Col α) : PFAt m s := h.at_ s
 
 /-- leaves of `pf_at` -/
-syntax "pf_leaf" : tactic
-macro_rules | `(tactic| pf_leaf) => `(tactic| first
+syntax "pfp_leaf" : tactic
+macro_rules | `(tactic| pfp_leaf) => `(tactic| first
   | with_reducible exact PFAt.pure _ _
   | with_reducible exact PFAt.get _
   | with_reducible exact PFAt.aerr _ _ _
@@ -89,7 +89,7 @@ macro_rules | `(tactic| pf_leaf) => `(tactic| first
 macro "pf_at" : tactic => `(tactic|
   repeat' (first
     | intro _
-    | pf_leaf
+    | pfp_leaf
     | with_reducible apply PFAt.bind_get
     | ((with_reducible apply PFAt.bind_modify) <;> first | rfl | skip)
     | with_reducible apply PFAt.bind_diag (by diag_leaf)
@@ -99,49 +99,49 @@ macro "pf_at" : tactic => `(tactic|
 
 section pieces
 
-theorem valueOf_pf (env : Env) (v : PQValue α) (b : Bool) : PF (valueOf env v b) := by
+theorem valueOf_pf (env : Env) (v : PQValue α) (b : Bool) : PFp (valueOf env v b) := by
   constructor; intro s; unfold valueOf; pf_at
-macro_rules | `(tactic| pf_leaf) => `(tactic| with_reducible exact (valueOf_pf ..).pfAt _)
+macro_rules | `(tactic| pfp_leaf) => `(tactic| with_reducible exact (valueOf_pf ..).pfAt _)
 
-theorem quantityOf_pf (env : Env) (q : Loc (PQuantity α)) (b : Bool) : PF (quantityOf env q b) := by
+theorem quantityOf_pf (env : Env) (q : Loc (PQuantity α)) (b : Bool) : PFp (quantityOf env q b) := by
   constructor; intro s; unfold quantityOf; pf_at
-macro_rules | `(tactic| pf_leaf) => `(tactic| with_reducible exact (quantityOf_pf ..).pfAt _)
+macro_rules | `(tactic| pfp_leaf) => `(tactic| with_reducible exact (quantityOf_pf ..).pfAt _)
 
-theorem resolveReference_pf (env : Env) (container : String) (inherit : Nat) (existing : List (Str × Modifiers)) (name : Str) (mods : Modifiers) (location modLoc : Span) : PF (resolveReference (α := α) env container inherit existing name mods location modLoc) := by
+theorem resolveReference_pf (env : Env) (container : String) (inherit : Nat) (existing : List (Str × Modifiers)) (name : Str) (mods : Modifiers) (location modLoc : Span) : PFp (resolveReference (α := α) env container inherit existing name mods location modLoc) := by
   constructor; intro s; unfold resolveReference; pf_at
-macro_rules | `(tactic| pf_leaf) => `(tactic| with_reducible exact (resolveReference_pf ..).pfAt _)
+macro_rules | `(tactic| pfp_leaf) => `(tactic| with_reducible exact (resolveReference_pf ..).pfAt _)
 
-theorem optQuantityOf_pf (env : Env) (q : Option (Loc (PQuantity α))) (b : Bool) : PF (optQuantityOf env q b) := by
+theorem optQuantityOf_pf (env : Env) (q : Option (Loc (PQuantity α))) (b : Bool) : PFp (optQuantityOf env q b) := by
   constructor; intro s; unfold optQuantityOf; pf_at
-macro_rules | `(tactic| pf_leaf) => `(tactic| with_reducible exact (optQuantityOf_pf ..).pfAt _)
+macro_rules | `(tactic| pfp_leaf) => `(tactic| with_reducible exact (optQuantityOf_pf ..).pfAt _)
 
-theorem optValueOf_pf (env : Env) (q : Option (Loc (PQValue α))) : PF (optValueOf env q) := by
+theorem optValueOf_pf (env : Env) (q : Option (Loc (PQValue α))) : PFp (optValueOf env q) := by
   constructor; intro s; unfold optValueOf; pf_at
-macro_rules | `(tactic| pf_leaf) => `(tactic| with_reducible exact (optValueOf_pf ..).pfAt _)
+macro_rules | `(tactic| pfp_leaf) => `(tactic| with_reducible exact (optValueOf_pf ..).pfAt _)
 
-theorem noteReferenceError_pf (input : Str) (a b : Span) (c : Option Span) : PF (noteReferenceError (α := α) input a b c) := by
+theorem noteReferenceError_pf (input : Str) (a b : Span) (c : Option Span) : PFp (noteReferenceError (α := α) input a b c) := by
   constructor; intro s; unfold noteReferenceError; pf_at
-macro_rules | `(tactic| pf_leaf) => `(tactic| with_reducible exact (noteReferenceError_pf ..).pfAt _)
+macro_rules | `(tactic| pfp_leaf) => `(tactic| with_reducible exact (noteReferenceError_pf ..).pfAt _)
 
-theorem timerQuantityChecks_pf (env : Env) (q : Loc (PQuantity α)) (r : Quantity (ScalableValue α)) : PF (timerQuantityChecks env q r) := by
+theorem timerQuantityChecks_pf (env : Env) (q : Loc (PQuantity α)) (r : Quantity (ScalableValue α)) : PFp (timerQuantityChecks env q r) := by
   constructor; intro s; unfold timerQuantityChecks; pf_at
-macro_rules | `(tactic| pf_leaf) => `(tactic| with_reducible exact (timerQuantityChecks_pf ..).pfAt _)
+macro_rules | `(tactic| pfp_leaf) => `(tactic| with_reducible exact (timerQuantityChecks_pf ..).pfAt _)
 
-theorem timerQuantity_pf (env : Env) (q : Option (Loc (PQuantity α))) : PF (timerQuantity env q) := by
+theorem timerQuantity_pf (env : Env) (q : Option (Loc (PQuantity α))) : PFp (timerQuantity env q) := by
   constructor; intro s; unfold timerQuantity; pf_at
-macro_rules | `(tactic| pf_leaf) => `(tactic| with_reducible exact (timerQuantity_pf ..).pfAt _)
+macro_rules | `(tactic| pfp_leaf) => `(tactic| with_reducible exact (timerQuantity_pf ..).pfAt _)
 
-theorem timerA_pf (env : Env) (lt : Loc (PTimer α)) : PF (timerA env lt) := by
+theorem timerA_pf (env : Env) (lt : Loc (PTimer α)) : PFp (timerA env lt) := by
   constructor; intro s; unfold timerA; pf_at
-macro_rules | `(tactic| pf_leaf) => `(tactic| with_reducible exact (timerA_pf ..).pfAt _)
+macro_rules | `(tactic| pfp_leaf) => `(tactic| with_reducible exact (timerA_pf ..).pfAt _)
 
-theorem inStepTextStep_pf (env : Env) (t : Text) (items : List Item) : PF (inStepTextStep (α := α) env t items) := by
+theorem inStepTextStep_pf (env : Env) (t : Text) (items : List Item) : PFp (inStepTextStep (α := α) env t items) := by
   constructor; intro s; unfold inStepTextStep; pf_at
-macro_rules | `(tactic| pf_leaf) => `(tactic| with_reducible exact (inStepTextStep_pf ..).pfAt _)
+macro_rules | `(tactic| pfp_leaf) => `(tactic| with_reducible exact (inStepTextStep_pf ..).pfAt _)
 
-theorem pushContent_pf (c : Content) : PF (pushContent (α := α) c) := by
+theorem pushContent_pf (c : Content) : PFp (pushContent (α := α) c) := by
   constructor; intro s; unfold pushContent; pf_at
-macro_rules | `(tactic| pf_leaf) => `(tactic| with_reducible exact (pushContent_pf ..).pfAt _)
+macro_rules | `(tactic| pfp_leaf) => `(tactic| with_reducible exact (pushContent_pf ..).pfAt _)
 
 /-! ### the conditional pieces -/
 
@@ -149,7 +149,7 @@ theorem resolveInterRef_pfAt (d : Loc InterData) (s : Col α) (h : 0 ≤ d.val.v
   unfold resolveInterRef
   pf_at
   all_goals (exfalso; omega)
-macro_rules | `(tactic| pf_leaf) => `(tactic| with_reducible exact resolveInterRef_pfAt _ _ (by assumption))
+macro_rules | `(tactic| pfp_leaf) => `(tactic| with_reducible exact resolveInterRef_pfAt _ _ (by assumption))
 
 theorem ingrInterChecks_pfAt (i : PIngredient α) (igr : Ingredient (ScalableValue α)) (s : Col α)
     (h : igr.modifiers.contains Modifiers.REF = true) : PFAt (ingrInterChecks i igr) s := by
@@ -157,7 +157,7 @@ theorem ingrInterChecks_pfAt (i : PIngredient α) (igr : Ingredient (ScalableVal
   pf_at
   rename_i hc
   rw [h] at hc; cases hc
-macro_rules | `(tactic| pf_leaf) => `(tactic| with_reducible exact ingrInterChecks_pfAt _ _ _ (by assumption))
+macro_rules | `(tactic| pfp_leaf) => `(tactic| with_reducible exact ingrInterChecks_pfAt _ _ _ (by assumption))
 
 theorem ingrInter_pfAt (i : PIngredient α) (igr : Ingredient (ScalableValue α)) (d : Loc InterData) (s : Col α)
     (h : igr.modifiers.contains Modifiers.REF = true) (hd : 0 ≤ d.val.val) : PFAt (ingrInter i igr d) s := by
